@@ -362,6 +362,11 @@ func (g *Gen) scalar(v reflect.Value) {
 		fx := g.next()*4099 + int64(g.R.Intn(1<<12))
 		if t.Kind() == reflect.Float32 {
 			fx %= 1 << 22
+			if g.R.Chance(1, 3) {
+				// a larger float32: 24 significant bits shifted up, so that neighbours one fixed-point unit
+				// away are NOT representable in binary32 (operands there exercise the float32 rounding)
+				fx = (fx | 1<<21) << uint(4+g.R.Intn(5))
+			}
 		} else {
 			fx %= 1 << 30
 		}
